@@ -119,6 +119,10 @@ def constructed(rng):
             for sgn in (1, -1):
                 for op in ("floor", "ceil", "trunc", "fract", "magn"):
                     out.append("%s %s" % (op, G.fD(sgn * c, s)))
+    # multiples of 10^n beyond 2^64 / 2^128 reduced modulo the word size
+    for c, n_ in G.wrapped_multiples():
+        for op in ("floor", "ceil", "trunc", "fract", "preds"):
+            out.append("%s %s" % (op, G.fD(c * rng.choice((1, -1)), n_)))
     # decision boundary of division-free divisibility tests (x * inverse(5^n) mod 2^w against floor((2^w - 1) / 5^n))
     for c, n_ in G.modinv_boundary_all(rng):
         for op in ("floor", "ceil", "trunc", "fract", "preds"):
